@@ -1094,6 +1094,12 @@ int main(int argc, char** argv) {
         for (const LibOut* L : {&A, &B}) {
             if (L->ok) continue;
             if (L->stage == "parse") { rep.count("deck_rejected_by_parser"); rep.cover("parser_message", shortMsg(L->err)); }
+            else if (L->stage == "query" && L->err.find("Region Index Out of Bounds") != std::string::npos) {
+                // the saturation function defaults (SWL, SGU ...) are read from the table of the cell's SATNUM / IMBNUM: a region
+                // number outside 1..NTSFUN (TABDIMS declares 3 here; ADD / COPY on SATNUM can produce 6) is refused when such a
+                // default is asked for.  A refusal, not an inconsistency of the accessors.
+                rep.count("query_refused_satnum_outside_tabdims");
+            }
             else if (L->stage == "query") rep.violation(keyOf("accessor-inconsistent"), L->err, witness(L->err));
             else if (refRefuses) rep.count("refused_as_expected");
             else if (topHazard && L == &A) rep.count("refused_in_top_plane_hazard_case");
